@@ -1,314 +1,953 @@
-"""C05 - concurrent users of one UDS client.  2..5 real tasks (service calls, the cyclic tester-present worker,
-reconnects) share one real ECU client over a scripted wire under virtual time; the client lock and the transport are
-instrumented from outside (TracingLock, Wire).  The recorded event trace must be accepted by the Lean lock-discipline
-model (Model/ClientConc.lean: every transport op by the lock holder, FIFO hand-over, release on every exit), every caller
-must end with its own reply or an error, and nobody may be left waiting forever."""
+"""C05 - concurrent users of one UDS client.  2..5 real tasks (typed service calls, send_raw(), the cyclic tester-present
+worker with its start / stop, reconnects) share one real ECU client over a scripted wire with ONE inbox under virtual
+time; the client lock, the transport, asyncio.sleep and create_task are instrumented from outside.  Two things are
+recorded per run and replayed through the Lean models:
+
+  * the event trace (want / got / op / rel / unwait / ended) for the lock-discipline acceptor (Model/ClientConc.lean);
+  * the schedule (which task completed which await point, which message the network delivered, where a CancelledError
+    was delivered) for the multi-task model (Model/ClientMulti.lean): every observed step must be the enabled next step
+    of that task's program - `requestX` over the read / write / reconnect results that task observed -, every message a
+    task reads must be the head of the model's shared inbox, and the outcome per caller must be the model's.
+
+Every caller must end with a reply that is not foreign to its request BYTES (Spec/Reply.lean) or with an error, and
+nobody may be left waiting forever."""
 import asyncio
 import itertools
+from collections import deque
 
 from common import setup_repo_import
 from vloop import Stall, vrun
 
 ID = "C05"
-GENS = []
+GENS = ["c05_locks"]
 PROOF = "Gallia.Proofs.C05"
 DRIVER = "c05"
 ASSUMPTIONS = [
-    "asyncio.Lock is FIFO and `async with` releases on return, exception and cancellation (the trace acceptor re-checks this on every run)",
-    "the real scheduler is asyncio's: the theorems cover every schedule, the tie observes the schedules provoked by arrival offsets, reply delays and cancellation at every traced event",
-    "a late reply to an earlier request is indistinguishable from the caller's own only when the requests are byte-identical; callers use distinct identifiers",
-    "the private, uncalled UDSClient._tester_present(suppress_resp=True) writes without the lock; it has no caller in gallia and is not a public coroutine",
+    "asyncio.Lock is FIFO, `async with` releases on return, exception and cancellation, a waiter whose Task.cancel() was called is skipped by the lock "
+    "from that moment, and CancelledError is raised at the await point the task is suspended in (the acceptor and the schedule replay re-check "
+    "this on every run)",
+    "cancellation is atomic in the model (delivered at once at the await point); between Task.cancel() and the delivery the real task runs nothing, "
+    "which the replay re-checks; clean-up awaits of a task that is being cancelled (wait_for_ecu restarting the worker in its finally block) are "
+    "outside the model and not cancelled by the tie",
+    "the real scheduler is asyncio's: the theorems cover every schedule, the tie observes the schedules provoked by arrival offsets, reply delays, "
+    "write / read / reconnect faults and cancellation at every instrumented await",
+    "a reply is told apart from another caller's by C03's matcher only: a late reply to a byte-identical request, and a late NEGATIVE response to a "
+    "request of the same service, are indistinguishable from the caller's own (no sequence numbers in UDS); own_reply_or_error carries this as the "
+    "hypothesis `Foreign r b` (classify_bytes, same_service_negative_not_foreign make the caveat explicit)",
+    "the private, uncalled UDSClient._tester_present(suppress_resp=True) writes without the lock; unlocked_calls_guarded proves from the regenerated "
+    "call table that it has no caller",
+    "lock use is lexical (`async with self.mutex`) in client.py, ecu.py, transports/base.py: regenerated from the AST (lock_sites_agree); a mutex reached "
+    "through another name, by getattr or from another module is outside the table (the dynamic tie still sees its effect)",
+    "the transport's own mutex (BaseTransport.reconnect / request) is only taken inside the client lock; the tie runs the real BaseTransport.reconnect, "
+    "the model has one lock",
+    "the scripted wire keeps its inbox across reconnect() (a late reply may arrive on the new connection): the adversarial choice; the model's network "
+    "may deliver any message at any time anyway",
 ]
 
 TIMEOUT = 1.0
+INTERVAL = 0.35
+
+
+def ms(x):
+    return int(round(x * 1000))
 
 
 class Tracer:
     def __init__(self):
-        self.events = []  # (kind, tid)
+        self.events = []      # old style: (kind, tid), ops logged when they start
+        self.sched = []       # new style: choices, ops logged when they complete
         self.ids = {}
-        self.count = {}
-        self.cancel_at = None  # (tid, n)
         self.tasks = {}
+        self.count = {}       # instrumented awaits entered, per task
+        self.cancel_at = None
+        self.cancel_req = set()
+        self.x_done = set()
+        self.rounds = {}      # tid -> list of round dicts
+        self.inside = set()   # tids between got and rel
+        self.waiting = set()  # tids between want and got
+        self.holder = None    # harness' own view of the lock
+        self.worker_tids = set()
+        self.auto = set()     # tids whose rounds are derived from what they do (wait_for_ecu)
+        self.next_tid = 1
+        self.orig_sleep = None
+        self.main = None      # the harness' own coroutine
+        self.misuse = []      # (index into sched, tid, label, holder) wire ops completed by a task that does not hold the lock
+
+    # -- task identities
+    def register(self, task, worker=False):
+        if task in self.ids:
+            return self.ids[task]
+        i = self.next_tid
+        self.next_tid += 1
+        self.ids[task] = i
+        self.tasks[i] = task
+        self.rounds[i] = []
+        if worker:
+            self.worker_tids.add(i)
+        task.add_done_callback(lambda t, i=i: self._ended(t, i))
+        return i
 
     def tid(self):
+        """identity of the current task; a task nobody announced (e.g. an inner task created by shield() / wait_for() /
+        create_task() inside the client) gets one on first sight: it has no program in the model, so whatever it does on
+        the lock or the transport is reported"""
         t = asyncio.current_task()
+        if t is None or t is self.main:
+            return None
         if t not in self.ids:
-            self.ids[t] = len(self.ids) + 1
-            self.tasks[self.ids[t]] = t
-            t.add_done_callback(lambda _t, i=self.ids[t]: self.events.append(("ended", i)))
+            self.register(t)
         return self.ids[t]
 
-    def log(self, kind):
+    def _ended(self, t, i):
+        if t.cancelled():
+            self.delivered(i)
+        self.events.append(("ended", i))
+
+    # -- rounds
+    def begin_round(self, i, desc):
+        if self.rounds[i] and "end" not in self.rounds[i][-1]:
+            self.rounds[i][-1]["end"] = len(self.sched)
+        r = {"desc": desc, "reads": [], "writes": [], "rcs": [], "complete": False, "begin": len(self.sched)}
+        self.rounds[i].append(r)
+        return r
+
+    def end_round(self, r):
+        r["complete"] = True
+        r["end"] = len(self.sched)
+
+    def cur_round(self, i):
+        if not self.rounds[i]:
+            self.begin_round(i, ("S", 0))
+        return self.rounds[i][-1]
+
+    # -- instrumented awaits
+    def enter(self, kind):
+        """an instrumented await starts in the current task"""
         i = self.tid()
-        self.events.append((kind, i))
+        if i is None:
+            return None
         n = self.count[i] = self.count.get(i, 0) + 1
         if self.cancel_at == (i, n):
-            asyncio.get_event_loop().call_soon(self.tasks[i].cancel)
+            self.cancel_req.add(i)
+            asyncio.get_event_loop().call_soon(self.cancel_task, self.tasks[i])
+        return i
+
+    def cancel_task(self, task):
+        """Task.cancel().  A task blocked in lock.acquire() is out of the queue from this moment on as far as the lock is concerned
+        (its waiter future is cancelled: release() and the fast path of acquire() skip it), although the task itself
+        sees the CancelledError only at its next step - so that is where the cancellation is delivered."""
+        i = self.ids.get(task)
+        if i is not None and i in self.waiting and not task.done():
+            self.note_cancelled_waiter(i)
+        return task.cancel()
+
+    def note_cancelled_waiter(self, i):
+        if i not in self.x_done:
+            self.events.append(("unwait", i))
+            self.waiting.discard(i)
+            self.delivered(i)
+
+    def old(self, kind):
+        i = self.tid()
+        if i is not None:
+            self.events.append((kind, i))
+
+    def step(self, label):
+        """the current task completed the await point `label`"""
+        i = self.tid()
+        if i is None:
+            return
+        if label in ("w", "r", "c") and self.holder != i:
+            self.misuse.append((len(self.sched), i, label, self.holder))
+        self.sched.append(f"r:{i}:{label}")
+
+    def delivered(self, i):
+        """CancelledError reached task i"""
+        if i not in self.x_done:
+            self.x_done.add(i)
+            self.sched.append(f"x:{i}")
+            self.inside.discard(i)
 
 
 def make_lock(tr):
     class TracingLock(asyncio.Lock):
         async def acquire(self):
-            tr.log("want")
+            i = tr.tid()
+            if i in tr.auto:
+                tr.begin_round(i, ("?",))
+            tr.enter("want")
+            tr.old("want")
+            tr.step("want")
+            tr.waiting.add(i)
             try:
                 r = await super().acquire()
             except asyncio.CancelledError:
-                tr.log("unwait")
+                if i is not None and i not in tr.x_done:
+                    tr.old("unwait")
+                    tr.delivered(i)
+                tr.waiting.discard(i)
                 raise
-            tr.log("got")
+            tr.waiting.discard(i)
+            tr.old("got")
+            tr.step("got")
+            tr.inside.add(i)
+            tr.holder = i
             return r
 
+        async def __aexit__(self, exc_type, exc, tb):
+            if exc_type is not None and issubclass(exc_type, asyncio.CancelledError):
+                i = tr.tid()
+                if i is not None:
+                    tr.delivered(i)
+                tr.old("rel")
+                tr.holder = None
+                asyncio.Lock.release(self)
+                return None
+            self.release()
+            return None
+
         def release(self):
-            tr.log("rel")
+            tr.old("rel")
+            tr.step("rel")
+            i = tr.tid()
+            tr.inside.discard(i)
+            tr.holder = None
             super().release()
 
     return TracingLock()
 
 
-def make_wire(tr, scripts):
+class Net:
+    """the medium behind every Wire instance: one inbox; a message is handed to whoever reads next"""
+
+    def __init__(self, tr, plan, rc_script):
+        self.tr = tr
+        self.plan = plan
+        self.inbox = deque()
+        self.fault = None
+        self.waiters = []
+        self.nwrites = {}
+        self.rc_script = list(rc_script)
+        self.nconnect = 0
+
+    def deliver(self, item):
+        if isinstance(item, str):
+            self.fault = item
+        else:
+            self.inbox.append(item)
+            self.tr.sched.append("d:" + item.hex())
+        for f in self.waiters:
+            if not f.done():
+                f.set_result(None)
+
+
+def make_wire(tr, net):
     from gallia.transports.base import BaseTransport, TargetURI
 
     class Wire(BaseTransport, scheme="fake"):
-        def __init__(self):
-            super().__init__(TargetURI("fake://wire"))
-            self.inbox = asyncio.Queue()
-            self.nwrites = {}
+        def __init__(self, target=None):
+            super().__init__(target or TargetURI("fake://wire"))
 
         @classmethod
         async def connect(cls, target, timeout=None):
-            raise NotImplementedError
+            tr.enter("c")
+            await tr.orig_sleep(0.05)
+            k = net.nconnect
+            net.nconnect += 1
+            res = net.rc_script[k] if k < len(net.rc_script) else "o"
+            i = tr.tid()
+            if i is not None:
+                r = tr.cur_round(i)
+                if r["desc"][0] in ("C", "?"):
+                    r["desc"] = ("C", res)
+                else:
+                    r["rcs"].append(res)
+            tr.step("c")
+            if res == "C":
+                raise ConnectionRefusedError("scripted")
+            if res == "T":
+                raise TimeoutError("scripted")
+            if res == "O":
+                raise OSError(113, "scripted: no route to host")
+            return cls(target if not isinstance(target, str) else TargetURI(target))
 
         async def close(self):
+            tr.old("c")
             self.is_closed = True
 
-        async def reconnect(self, timeout=None):
-            tr.log("c")
-            await asyncio.sleep(0.05)
-            return self
-
         async def write(self, data, timeout=None, tags=None):
-            tr.log("w")
+            tr.enter("w")
+            tr.old("w")
+            await tr.orig_sleep(0)
             data = bytes(data)
-            k = self.nwrites.get(data, 0)
-            self.nwrites[data] = k + 1
+            k = net.nwrites.get(data, 0)
+            net.nwrites[data] = k + 1
+            res, replies = net.plan(data, k)
+            i = tr.tid()
+            if i is not None:
+                r = tr.cur_round(i)
+                if r["desc"][0] == "?":
+                    r["desc"] = ("R", data.hex(), ms(TIMEOUT), 0, None if timeout is None else ms(timeout), 0)
+                r["writes"].append(res)
+            tr.step("w")
+            if res == "C":
+                raise ConnectionResetError("scripted")
+            if res == "T":
+                raise TimeoutError("scripted")
             loop = asyncio.get_event_loop()
-            for delay, reply in scripts(data, k):
-                loop.call_later(delay, self.inbox.put_nowait, reply)
+            for delay, reply in replies:
+                loop.call_later(delay, net.deliver, reply)
             return len(data)
 
         async def read(self, timeout=None, tags=None):
-            tr.log("r")
-            item = await asyncio.wait_for(self.inbox.get(), timeout)
-            if item == b"!":
-                raise ConnectionResetError("scripted")
-            return item
+            tr.enter("r")
+            tr.old("r")
+            loop = asyncio.get_event_loop()
+            deadline = None if timeout is None else loop.time() + timeout
+            i = tr.tid()
+
+            def done(item):
+                if i is not None:
+                    tr.cur_round(i)["reads"].append(item)
+                tr.step("r")
+
+            while True:
+                if net.fault is not None:
+                    f, net.fault = net.fault, None
+                    if f == "!E":
+                        done("e")
+                        return b""
+                    done("c")
+                    raise ConnectionResetError("scripted")
+                if net.inbox:
+                    b = net.inbox.popleft()
+                    done(b.hex())
+                    return b
+                if deadline is not None and loop.time() >= deadline:
+                    done("t")
+                    raise TimeoutError("scripted: nothing received")
+                fut = loop.create_future()
+                h = None
+                if deadline is not None:
+                    h = loop.call_at(deadline, lambda: fut.done() or fut.set_result(None))
+                net.waiters.append(fut)
+                try:
+                    await fut
+                finally:
+                    if h is not None:
+                        h.cancel()
+                    net.waiters.remove(fut)
 
     return Wire()
 
 
-def reply_script(kind, did):
-    pos = bytes([0x62, did >> 8, did & 0xFF, 0xAB])
-    pend = bytes([0x7F, 0x22, 0x78])
-    return {
-        "imm": [(0.01, pos)],
-        "pend": [(0.01, pend), (0.4, pend), (0.8, pos)],
-        "timeout": [],
-        "late": [(TIMEOUT + 0.3, pos)],
-        "error": [(0.01, b"!")],
-        "neg": [(0.02, bytes([0x7F, 0x22, 0x31]))],
-    }[kind]
+def did_pdu(did):
+    return bytes([0x22, did >> 8, did & 0xFF])
+
+
+def reply_script(kind, pdu):
+    """-> (write result, [(delay, message | fault marker)]) for one transmission of `pdu`"""
+    if pdu[0] == 0x22:
+        pos = bytes([0x62, pdu[1], pdu[2], 0xAB])
+        other = bytes([0x62, pdu[1], pdu[2] ^ 0x80, 0xCD])
+    else:
+        pos = bytes([pdu[0] + 0x40]) + pdu[1:2]
+        other = bytes([pdu[0] + 0x41]) + pdu[1:2]
+    sid = pdu[0]
+    pend = bytes([0x7F, sid, 0x78])
+    table = {
+        "imm": ("o", [(0.01, pos)]),
+        "slow": ("o", [(0.3, pos)]),
+        "pend": ("o", [(0.01, pend), (0.4, pend), (0.8, pos)]),
+        "timeout": ("o", []),
+        "late": ("o", [(TIMEOUT + 0.3, pos)]),
+        "error": ("o", [(0.01, "!C")]),
+        "eof": ("o", [(0.02, "!E")]),
+        "neg": ("o", [(0.02, bytes([0x7F, sid, 0x31]))]),
+        "busy": ("o", [(0.02, bytes([0x7F, sid, 0x21]))]),
+        "penderr": ("o", [(0.01, pend), (0.3, "!C")]),
+        "foreign": ("o", [(0.02, other)]),
+        "wfaultC": ("C", []),
+        "wfaultT": ("T", []),
+    }
+    return table[kind]
+
+
+OLD_KINDS = ["imm", "pend", "timeout", "late", "error", "neg"]
+NEW_KINDS = ["slow", "eof", "busy", "penderr", "foreign", "wfaultC", "wfaultT"]
+RETRYABLE = ("timeout", "late", "error", "eof", "busy", "penderr", "wfaultC", "wfaultT")
+
+
+def classify_exc(e, G):
+    if isinstance(e, G["MissingResponse"]):
+        return "missing:1" if isinstance(e.__cause__, ConnectionError) else "missing:0"
+    if isinstance(e, G["IllegalResponse"]):
+        return "illegal"
+    if isinstance(e, RuntimeError) and "ResponsePending" in str(e):
+        return "stuck"
+    if isinstance(e, ConnectionError):
+        return "raw:C"
+    if isinstance(e, TimeoutError):
+        return "raw:T"
+    if isinstance(e, OSError):
+        return "raw:O"
+    return "exc:" + type(e).__name__
 
 
 async def scenario(spec, cancel_at):
-    """spec: list of (kind, offset, script, max_retry); kind in req/tp/reconnect"""
+    """spec: {"tasks": [task, ...], "worker": bool, "worker_scripts": [...], "rc": "oC.."}
+    task: ("req", offset, [(api, did, script, max_retry), ...]) | ("reconnect", offset)
+    api: typed | raw;  script: kind or list of kinds per transmission"""
     from gallia.services.uds.core.client import UDSRequestConfig
+    from gallia.services.uds.core.exception import IllegalResponse, MissingResponse
     from gallia.services.uds.ecu import ECU
 
+    G = {"MissingResponse": MissingResponse, "IllegalResponse": IllegalResponse}
     tr = Tracer()
+    tr.main = asyncio.current_task()
     tr.cancel_at = cancel_at
-    dids = {}
+    tr.orig_sleep = asyncio.sleep
+    orig_sleep, orig_create_task = asyncio.sleep, asyncio.create_task
     scripts_by_pdu = {}
+    wscripts = list(spec.get("worker_scripts") or ["imm"])
 
-    def scripts(pdu, k):
+    def plan(pdu, k):
         if pdu == b"\x3e\x00":
-            return [(0.01, b"\x7e\x00")]
+            kind = wscripts[min(k, len(wscripts) - 1)]
+            return reply_script(kind, pdu)
         s = scripts_by_pdu.get(pdu)
         if s is None:
-            return []
+            return ("o", [])
         kind = s if isinstance(s, str) else s[min(k, len(s) - 1)]
-        return reply_script(kind, (pdu[1] << 8) | pdu[2])
+        return reply_script(kind, pdu)
 
-    wire = make_wire(tr, scripts)
+    net = Net(tr, plan, spec.get("rc", ""))
+    wire = make_wire(tr, net)
     ecu = ECU(wire, timeout=TIMEOUT, max_retry=0)
     ecu.mutex = make_lock(tr)
-    results = {}
 
-    async def req(i, did, max_retry):
-        tr.tid()
-        try:
-            r = await ecu.read_data_by_identifier(did, config=UDSRequestConfig(max_retry=max_retry))
-            results[i] = ("resp", r.pdu.hex())
-        except asyncio.CancelledError:
-            results[i] = ("cancelled",)
-            raise
-        except Exception as e:
-            results[i] = ("exc", type(e).__name__)
+    async def traced_sleep(delay, result=None):
+        i = tr.tid()
+        if i is None:
+            return await orig_sleep(delay, result)
+        if i in tr.worker_tids and i not in tr.inside:
+            tr.begin_round(i, ("W", ms(delay)))
+        elif i in tr.auto and i not in tr.inside:
+            cur = tr.rounds[i][-1] if tr.rounds[i] else None
+            if not (cur is not None and cur["desc"][0] == "A" and not cur.get("slept")):
+                tr.begin_round(i, ("S", ms(delay)))
+            else:
+                cur["slept"] = True
+        tr.enter("s")
+        r = await orig_sleep(delay, result)
+        tr.step(f"s{ms(delay)}")
+        return r
 
-    async def reconnect(i):
-        tr.tid()
+    def traced_create_task(coro, **kw):
+        t = orig_create_task(coro, **kw)
+        if getattr(getattr(coro, "cr_code", None), "co_name", "") == "_tester_present_worker":
+            w = tr.register(t, worker=True)
+            i = tr.tid()
+            if i is not None:
+                if i in tr.auto:
+                    tr.begin_round(i, ("A", w))
+                r = tr.cur_round(i)
+                if r["desc"][0] == "A":
+                    r["desc"] = ("A", w)
+                tr.step(f"spawn{w}")
+        return t
+
+    results = {}   # tid -> list of (round index, result)
+    reqs = {}      # (tid, round index) -> request bytes
+
+    async def caller(offset, calls):
+        i = tr.register(asyncio.current_task())
+        results[i] = []
+        await orig_sleep(offset)
+        for api, did, script, max_retry in calls:
+            pdu = did_pdu(did)
+            r = tr.begin_round(i, ("R", pdu.hex(), ms(TIMEOUT), 0, None, max_retry))
+            n = len(tr.rounds[i]) - 1
+            reqs[(i, n)] = pdu
+            cfg = UDSRequestConfig(max_retry=max_retry)
+            try:
+                if api == "raw":
+                    resp = await ecu.send_raw(pdu, config=cfg)
+                else:
+                    resp = await ecu.read_data_by_identifier(did, config=cfg)
+                results[i].append((n, ("reply", resp.pdu.hex())))
+            except asyncio.CancelledError:
+                results[i].append((n, ("cancelled",)))
+                raise
+            except Exception as e:
+                results[i].append((n, (classify_exc(e, G),)))
+            tr.end_round(r)
+
+    async def reconnecter(offset):
+        i = tr.register(asyncio.current_task())
+        results[i] = []
+        await orig_sleep(offset)
+        r = tr.begin_round(i, ("C", "o"))
         try:
             await ecu.reconnect()
-            results[i] = ("ok",)
+            results[i].append((0, ("ok",)))
         except asyncio.CancelledError:
-            results[i] = ("cancelled",)
+            results[i].append((0, ("cancelled",)))
             raise
         except Exception as e:
-            results[i] = ("exc", type(e).__name__)
+            results[i].append((0, (classify_exc(e, G),)))
+        tr.end_round(r)
 
-    tasks = []
-    tp = False
-    for i, (kind, offset, script, max_retry) in enumerate(spec):
-        if kind == "req":
-            did = 0x1000 + i
-            dids[i] = did
-            scripts_by_pdu[bytes([0x22, did >> 8, did & 0xFF])] = script
+    callers_done = asyncio.Event()
 
-            async def starter(i=i, did=did, offset=offset, max_retry=max_retry):
-                await asyncio.sleep(offset)
-                await req(i, did, max_retry)
-
-            tasks.append(asyncio.ensure_future(starter()))
-        elif kind == "reconnect":
-            async def starter(i=i, offset=offset):
-                await asyncio.sleep(offset)
-                await reconnect(i)
-
-            tasks.append(asyncio.ensure_future(starter()))
-        elif kind == "tp":
-            tp = True
-    if tp:
-        await ecu.start_cyclic_tester_present(0.35)
-    done, pending = await asyncio.wait(tasks, timeout=60) if tasks else (set(), set())
-    stuck = len(pending)
-    for t in pending:
-        t.cancel()
-    if tp:
-        await asyncio.sleep(0.5)
+    async def controller():
+        i = tr.register(asyncio.current_task())
+        results[i] = []
+        r = tr.begin_round(i, ("A", 0))
+        await ecu.start_cyclic_tester_present(INTERVAL)
+        tr.end_round(r)
+        await callers_done.wait()
+        await orig_sleep(0.5)
+        w = tr.ids.get(ecu.tester_present_task, 0)
+        r = tr.begin_round(i, ("Z", w))
         await ecu.stop_cyclic_tester_present()
-    await asyncio.sleep(0.01)
-    return tr.events, results, dids, stuck
+        tr.end_round(r)
+
+    orig_stop = ecu.stop_cyclic_tester_present
+
+    async def traced_stop():
+        i = tr.tid()
+        w = tr.ids.get(ecu.tester_present_task, 0)
+        live = i is not None and ecu.tester_present_task is not None
+        if live:
+            if i in tr.auto:
+                tr.begin_round(i, ("Z", w))
+            tr.step(f"stop{w}")
+            if w in tr.waiting:  # cancel() is the next thing stop_cyclic_tester_present() does, without suspending
+                tr.note_cancelled_waiter(w)
+        await orig_stop()
+        if live:
+            tr.step(f"join{w}")
+
+    ecu.stop_cyclic_tester_present = traced_stop
+
+    async def ecu_waiter(offset):
+        """ECU.wait_for_ecu(): stops the worker, pings every 0.5 s (reconnecting through the lock after a lost connection), restarts the worker"""
+        i = tr.register(asyncio.current_task())
+        tr.auto.add(i)
+        results[i] = []
+        await orig_sleep(offset)
+        try:
+            ok = await ecu.wait_for_ecu(timeout=10)
+            results[i].append((0, ("wfe", ok)))
+        except asyncio.CancelledError:
+            results[i].append((0, ("cancelled",)))
+            raise
+        except Exception as e:
+            results[i].append((0, (classify_exc(e, G),)))
+
+    asyncio.sleep = traced_sleep
+    asyncio.create_task = traced_create_task
+    try:
+        ctl = None
+        if spec.get("worker"):
+            ctl = asyncio.ensure_future(controller())
+        for d in spec["tasks"]:
+            if d[0] == "req":
+                for api, did, script, _m in d[2]:
+                    scripts_by_pdu[did_pdu(did)] = script
+        tasks = []
+        for d in spec["tasks"]:
+            if d[0] == "req":
+                tasks.append(asyncio.ensure_future(caller(d[1], d[2])))
+            elif d[0] == "wfe":
+                tasks.append(asyncio.ensure_future(ecu_waiter(d[1])))
+            else:
+                tasks.append(asyncio.ensure_future(reconnecter(d[1])))
+        done, pending = await asyncio.wait(tasks, timeout=120) if tasks else (set(), set())
+        stuck = len(pending)
+        for t in pending:
+            tr.cancel_task(t)
+        callers_done.set()
+        if ctl is not None:
+            d2, p2 = await asyncio.wait([ctl], timeout=30)
+            if p2:
+                stuck += 1
+                tr.cancel_task(ctl)
+            # a worker that outlives its controller (controller cancelled by the harness) is stopped here
+            wt = ecu.tester_present_task
+            if wt is not None and not wt.done():
+                tr.cancel_task(wt)
+                await asyncio.wait([wt], timeout=5)
+        await orig_sleep(0.01)
+    finally:
+        asyncio.sleep = orig_sleep
+        asyncio.create_task = orig_create_task
+    return {"events": tr.events, "sched": tr.sched, "rounds": tr.rounds, "results": results, "reqs": reqs, "stuck": stuck,
+            "count": dict(tr.count), "workers": sorted(tr.worker_tids), "misuse": tr.misuse, "auto": sorted(tr.auto)}
 
 
 def _fmt(events):
-    m = {"want": "want", "got": "got", "rel": "rel", "unwait": "unwait", "ended": "ended", "w": "w", "r": "r", "c": "c"}
-    return " ".join(f"{m[k]}:{t}" for k, t in events)
+    return " ".join(f"{k}:{t}" for k, t in events)
+
+
+def _opt(x):
+    return "none" if x is None else str(x)
+
+
+def round_token(r):
+    d = r["desc"]
+    rds = ",".join(r["reads"]) or "-"
+    wrs = "".join(r["writes"]) or "-"
+    rcs = "".join(r["rcs"]) or "-"
+    if d[0] == "R":
+        return f"R/{d[1]}/{d[2]}/{d[3]}/{_opt(d[4])}/{_opt(d[5])}/{rds}/{wrs}/{rcs}"
+    if d[0] == "W":
+        return f"W/{d[1]}/{ms(TIMEOUT)}/{rds}/{wrs}"
+    if d[0] == "C":
+        return f"C/{d[1]}"
+    if d[0] == "?":  # acquired (or still waiting) when it was cancelled: nothing of the call was seen
+        return f"R/3e00/{ms(TIMEOUT)}/0/500/0/-/-/-"
+    return f"{d[0]}/{d[1]}"
+
+
+def model_lines(run):
+    """driver lines for one recorded run"""
+    lines = ["reset"]
+    tids = sorted(run["rounds"])
+    for i in tids:
+        rs = run["rounds"][i]
+        worker = i in run["workers"]
+        toks = [round_token(r) for r in rs] or (["W/%d/%d/-/-" % (ms(INTERVAL), ms(TIMEOUT))] if worker else ["S/0"])
+        lines.append(f"task {i} {0 if worker else 1} {1 if worker else 0} " + " ".join(toks))
+    lines.append("sched " + " ".join(run["sched"]))
+    return lines, tids
+
+
+def gen_specs(ctx):
+    rng = ctx.rng
+    specs = []
+    did = [0x1000]
+
+    def fresh():
+        did[0] += 1
+        return did[0]
+
+    def call(kind, max_retry=None, api="typed"):
+        if max_retry is None:
+            max_retry = 1 if kind in ("timeout", "error") else 0
+        script = kind if max_retry == 0 else [kind, "imm"]
+        return (api, fresh(), script, max_retry)
+
+    # (1) all ordered pairs of the round-1 scripts for two callers x 3 arrival patterns x worker on/off
+    for a, b in itertools.product(OLD_KINDS, OLD_KINDS):
+        for offs in [(0.0, 0.0), (0.0, 0.2), (0.3, 0.0)]:
+            for tpw in (False, True):
+                did[0] = 0x1000
+                specs.append({"tasks": [("req", offs[0], [call(a, 0)]), ("req", offs[1], [call(b)])], "worker": tpw})
+    ctx.exhaustive_parts.append("all ordered pairs of the 6 reply scripts (immediate, pending, timeout, late reply after the timeout, read error, "
+                                "negative) for two callers x 3 arrival patterns x tester-present worker on/off")
+    # (2) the widened alphabet: every new script against every old one, both orders, worker on
+    for a in NEW_KINDS:
+        for b in OLD_KINDS:
+            for first in (0, 1):
+                did[0] = 0x1100
+                pair = [call(a, 1 if a in RETRYABLE else 0), call(b, 0)]
+                if first:
+                    pair.reverse()
+                specs.append({"tasks": [("req", 0.0, [pair[0]]), ("req", 0.1, [pair[1]])], "worker": True, "rc": "o"})
+    # reconnect failures inside the retry loop and in reconnect() itself, racing with requests
+    for a in ("error", "eof", "wfaultC", "penderr"):
+        for rc in ("C", "T", "O", "oC"):
+            for b in ("imm", "pend", "late"):
+                did[0] = 0x1200
+                specs.append({"tasks": [("req", 0.0, [call(a, 2)]), ("req", 0.05, [call(b, 0)]), ("reconnect", 0.1)],
+                              "worker": rc == "C", "rc": rc})
+    ctx.exhaustive_parts.append("every script of the widened alphabet (slow reply, end of stream, busy, connection loss while pending, foreign reply, "
+                                "write fault ConnectionError / TimeoutError) x every old script x both arrival orders; connection loss with retry x "
+                                "reconnect outcome (refused, timeout, OSError, second one refused) x competing caller x explicit reconnect()")
+    # (3) reply crossing: the first caller's reply is still in flight when the client is handed over; typed / raw / mixed
+    for api_a, api_b in itertools.product(("typed", "raw"), repeat=2):
+        for a in ("late", "slow", "pend"):
+            for b in ("imm", "slow", "pend", "timeout", "late"):
+                for tpw in (False, True):
+                    did[0] = 0xF100
+                    specs.append({"tasks": [("req", 0.0, [call(a, 0, api_a)]), ("req", 0.05, [call(b, 0, api_b)])], "worker": tpw,
+                                  "cross": True})
+    ctx.exhaustive_parts.append("reply crossing: first caller {late, slow, pending} x second caller {immediate, slow, pending, timeout, late} x "
+                                "{typed, send_raw}^2 (same service, different identifiers) x worker on/off, each also with the first caller "
+                                "cancelled at every await")
+    # (3b) wait_for_ecu(): stops the worker, pings, reconnects through the lock after a lost connection, restarts the worker
+    for ws in (["imm"], ["error", "imm"], ["timeout", "imm"], ["eof", "error", "imm"], ["wfaultC", "imm"]):
+        for b in ("imm", "pend", "late", "error"):
+            for tpw in (False, True):
+                for off in (0.0, 0.4):
+                    did[0] = 0x1300
+                    specs.append({"tasks": [("wfe", off), ("req", 0.1, [call(b, 1 if b == "error" else 0)]), ("req", 0.6, [call("imm", 0, "raw")])],
+                                  "worker": tpw, "worker_scripts": ws, "rc": "o"})
+    ctx.exhaustive_parts.append("ECU.wait_for_ecu() (stop worker, ping every 0.5 s, reconnect() through the lock after a lost connection, restart "
+                                "worker) x 5 ping scripts x 4 competing caller scripts x worker on/off x 2 offsets")
+    # (4) 3..5 tasks sampled, two calls per task possible
+    allk = OLD_KINDS + NEW_KINDS
+    for _ in range(ctx.pick(300, 1500)):
+        n = rng.randint(3, 5)
+        did[0] = 0x2000
+        ts = []
+        worker = False
+        for i in range(n):
+            r = rng.random()
+            if r < 0.72:
+                calls = [call(rng.choice(allk), rng.choice([0, 0, 1, 2]), rng.choice(["typed", "typed", "raw"]))
+                         for _ in range(rng.choice([1, 1, 2]))]
+                ts.append(("req", rng.choice([0.0, 0.0, 0.1, 0.2, 0.5]), calls))
+            elif r < 0.88:
+                ts.append(("reconnect", rng.choice([0.0, 0.05, 0.3])))
+            else:
+                worker = True
+        if not ts:
+            ts.append(("req", 0.0, [call("imm", 0)]))
+        specs.append({"tasks": ts, "worker": worker or rng.random() < 0.3,
+                      "worker_scripts": [rng.choice(["imm", "imm", "timeout", "error", "neg", "wfaultC"]) for _ in range(3)],
+                      "rc": "".join(rng.choice("oooC") for _ in range(4))})
+    return specs
 
 
 def run(ctx):
     setup_repo_import()
     import gallia.command  # noqa: F401
-    rng = ctx.rng
-    ctx.rule = ("one case = (2..5 tasks: requests with reply scripts immediate / pending / timeout / late-after-timeout / error / negative, "
-                "the tester-present worker, reconnects; arrival offsets; optional cancellation of one task at its n-th traced event); "
-                "distinct = distinct event trace; non-trivial = at least two tasks contend for the client")
-    kinds = ["imm", "pend", "timeout", "late", "error", "neg"]
-    specs = []
-    # all ordered pairs of scripts for 2 requesters, three arrival patterns, with/without worker
-    for a, b in itertools.product(kinds, kinds):
-        for offs in [(0.0, 0.0), (0.0, 0.2), (0.3, 0.0)]:
-            for tpw in (False, True):
-                sp = [("req", offs[0], a, 0), ("req", offs[1], b, 1 if b in ("timeout", "error") else 0)]
-                if tpw:
-                    sp.append(("tp", 0, None, 0))
-                specs.append(sp)
-    ctx.exhaustive_parts.append("all ordered pairs of the 6 reply scripts for two callers x 3 arrival patterns x tester-present worker on/off")
-    # 3..5 tasks sampled
-    for _ in range(ctx.pick(60, 600)):
-        n = rng.randint(3, 5)
-        sp = []
-        for i in range(n):
-            r = rng.random()
-            if r < 0.75:
-                sp.append(("req", rng.choice([0.0, 0.0, 0.1, 0.2, 0.5]), rng.choice(kinds), rng.choice([0, 0, 1, 2])))
-            elif r < 0.9:
-                sp.append(("reconnect", rng.choice([0.0, 0.05, 0.3]), None, 0))
-            else:
-                sp.append(("tp", 0, None, 0))
-        specs.append(sp)
-    cases = []
-    for sp in specs:
-        cases.append((sp, None))
-    # cancellation at every traced event of every task for a covering subset of specs
-    cancel_specs = specs[:: ctx.pick(9, 2)]
+    ctx.rule = ("one case = (2..5 tasks: typed and raw requests with reply scripts immediate / slow / pending / timeout / late-after-timeout / read "
+                "error / end of stream / negative / busy / loss while pending / foreign / write faults, retries with reconnect outcomes, the "
+                "tester-present worker with start and stop, explicit reconnects; arrival offsets; optional cancellation of one task at its n-th "
+                "instrumented await); distinct = distinct schedule; non-trivial = at least two tasks contend for the client")
+    specs = gen_specs(ctx)
+    cases = [(sp, None) for sp in specs]
+    # cancellation at every instrumented await (lock acquire, write, read, backoff sleep, reconnect, the worker's interval sleep, start's sleep(0))
+    stride = ctx.pick(4, 1)
+    cancel_specs = [sp for k, sp in enumerate(specs) if sp.get("cross") or k % stride == 0]
     for sp in cancel_specs:
         try:
-            (events, _r, _d, _s), _ = vrun(scenario(sp, None), horizon=1e5)
-        except Stall:
+            base, _ = vrun(scenario(sp, None), horizon=1e5)
+        except (Stall, Exception):
             continue
-        per_task = {}
-        for k, t in events:
-            if k != "ended":
-                per_task[t] = per_task.get(t, 0) + 1
-        for t, n in per_task.items():
-            for j in range(1, min(n, 12) + 1):
+        for t, n in sorted(base["count"].items()):
+            if sp.get("cross") and t != (3 if sp.get("worker") else 1):
+                continue  # crossing cases: the first caller only (the general enumeration covers everybody)
+            if t in base["auto"]:
+                continue  # wait_for_ecu() runs clean-up awaits (restart of the worker) while it is being cancelled: outside the model
+            for j in range(1, min(n, ctx.pick(10, 16)) + 1):
                 cases.append((sp, (t, j)))
-    ctx.exhaustive_parts.append("cancellation of each task at each of its first 12 traced events (want/got/write/read/reconnect/release) for the covered task sets")
+    ctx.exhaustive_parts.append("cancellation of each task at each of its first 10 (thorough: 16) instrumented awaits (lock acquire, write, read, "
+                                "backoff sleep, reconnect, interval sleep) for the covered task sets")
 
     lines, infos = [], []
     for sp, cancel_at in cases:
         ctx.ev()
-        ctx.kind(f"tasks={len(sp)}", "cancel" if cancel_at else "no-cancel")
-        case = {"tasks": [[k, o, s, m] for k, o, s, m in sp], "cancel_at": cancel_at}
+        ctx.kind(f"tasks={len(sp['tasks']) + (1 if sp.get('worker') else 0)}", "cancel" if cancel_at else "no-cancel")
+        case = {"spec": sp, "cancel_at": cancel_at}
         try:
-            (events, results, dids, stuck), _vt = vrun(scenario(sp, cancel_at), horizon=1e5)
+            r, _vt = vrun(scenario(sp, cancel_at), horizon=1e5)
         except Stall as e:
             ctx.disagree("conc:stall", f"scenario never finishes: {e}", case, spec_violated=True, site="UDSClient._request / reconnect (lock not released?)")
             continue
-        if stuck:
-            ctx.disagree("conc:caller-blocked-forever", f"{stuck} caller(s) still blocked 60 virtual seconds after everybody else finished",
+        events = r["events"]
+        if r["stuck"]:
+            ctx.disagree("conc:caller-blocked-forever", f"{r['stuck']} caller(s) still blocked 120 virtual seconds after everybody else finished",
                          case, impl=_fmt(events)[-600:], spec_violated=True, site="UDSClient._request / reconnect (lock not released?)")
             continue
-        # own reply or error
-        for i, did in dids.items():
-            r = results.get(i)
-            if r and r[0] == "resp":
-                got = bytes.fromhex(r[1])
-                if not (got[0] == 0x7F and got[1] == 0x22) and not (got[0] == 0x62 and ((got[1] << 8) | got[2]) == did):
-                    ctx.disagree("conc:foreign-reply-delivered", f"caller {i} (identifier {did:#x}) was handed {r[1]}", case, impl=r,
-                                 spec_violated=True, site="UDSClient.request_unsafe / parse_pdu")
+        ml, tids = model_lines(r)
+        start = len(lines)
         lines.append("accept " + _fmt(events))
-        infos.append((case, events))
-        ctx.nontrivial(_fmt(events))
+        lines.extend(ml)
+        fl = []
+        for i, rs in sorted(r["results"].items()):
+            for n, res in rs:
+                if res[0] == "reply" and (i, n) in r["reqs"]:
+                    fl.append((i, n, res[1]))
+                    lines.append(f"foreign {r['reqs'][(i, n)].hex()} {res[1]}")
+        infos.append((case, r, start, len(ml), tids, fl))
+        ctx.nontrivial(" ".join(r["sched"]))
     out = ctx.lean(lines)
-    for (case, events), o in zip(infos, out):
-        if not o.startswith("ok"):
-            idx = int(o.split()[1]) if o.split()[1].isdigit() else -1
-            ev = events[idx] if 0 <= idx < len(events) else ("?", 0)
-            what = {"w": "write", "r": "read", "c": "reconnect"}.get(ev[0], ev[0])
-            key = f"conc:rejected:{what}-outside-own-lock" if ev[0] in ("w", "r", "c") else f"conc:rejected:{what}"
-            ctx.disagree(key, f"event {idx} ({what} by task {ev[1]}) violates the locking discipline: " + _fmt(events[max(0, idx - 6): idx + 1]),
-                         {**case, "trace": _fmt(events)[:3000]}, impl=_fmt(events[: idx + 1])[-800:], model=o, spec_violated=True,
-                         site="UDSClient / ECU: transport used without holding the client lock, or lock not handed over")
-        elif "holder=none" not in o or not o.endswith("waiters="):
-            ctx.disagree("conc:lock-still-held-at-end", "after all tasks ended the client lock is still held or waited for: " + o, case,
-                         impl=_fmt(events)[-600:], model=o, spec_violated=True, site="UDSClient._request / reconnect")
-    ctx.traces_validated += len(lines)
+    for case, r, start, nml, tids, fl in infos:
+        events = r["events"]
+        judge_old(ctx, case, events, out[start])
+        mo = out[start + 1: start + 1 + nml]
+        fo = out[start + 1 + nml: start + 1 + nml + len(fl)]
+        # own reply or error, on the request BYTES
+        for (i, n, rep), cls in zip(fl, fo):
+            if cls != "genuine":
+                ctx.disagree("conc:foreign-reply-delivered",
+                             f"caller {i} (request {r['reqs'][(i, n)].hex()}) was handed {rep}, which is {cls} to that request", case,
+                             impl={"request": r["reqs"][(i, n)].hex(), "reply": rep, "sched": " ".join(r["sched"])[-1500:]}, model=cls,
+                             spec_violated=(cls == "foreign"), site="UDSClient.request_unsafe / helpers.parse_pdu")
+        judge_serial(ctx, case, r)
+        judge_multi(ctx, case, r, mo, tids)
+    ctx.traces_validated += 2 * len(infos)
     if infos:
-        ctx.sample({"tasks": infos[0][0]["tasks"], "trace": _fmt(infos[0][1])})
-        ctx.sample({"tasks": infos[-1][0]["tasks"], "cancel_at": infos[-1][0]["cancel_at"], "trace": _fmt(infos[-1][1])})
+        for k in (0, len(infos) // 2, -1):
+            case, r = infos[k][0], infos[k][1]
+            ctx.sample({"spec": case["spec"], "cancel_at": case["cancel_at"], "sched": " ".join(r["sched"])[:1200]})
+
+
+def judge_old(ctx, case, events, o):
+    if not o.startswith("ok"):
+        idx = int(o.split()[1]) if o.split()[1].isdigit() else -1
+        ev = events[idx] if 0 <= idx < len(events) else ("?", 0)
+        what = {"w": "write", "r": "read", "c": "reconnect"}.get(ev[0], ev[0])
+        key = f"conc:rejected:{what}-outside-own-lock" if ev[0] in ("w", "r", "c") else f"conc:rejected:{what}"
+        ctx.disagree(key, f"event {idx} ({what} by task {ev[1]}) violates the locking discipline: " + _fmt(events[max(0, idx - 6): idx + 1]),
+                     {**case, "trace": _fmt(events)[:3000]}, impl=_fmt(events[: idx + 1])[-800:], model=o, spec_violated=True,
+                     site="UDSClient / ECU: transport used without holding the client lock, or lock not handed over")
+    elif "holder=none" not in o or not o.endswith("waiters="):
+        ctx.disagree("conc:lock-still-held-at-end", "after all tasks ended the client lock is still held or waited for: " + o, case,
+                     impl=_fmt(events)[-600:], model=o, spec_violated=True, site="UDSClient._request / reconnect")
+
+
+def judge_serial(ctx, case, r):
+    """the property's first sentence, read off the wire alone: between the first transmission of a call and its end (reply,
+    error, or the cancellation of the caller) no other task transmits - whatever the lock events say"""
+    sched = r["sched"]
+    for i, rs in r["rounds"].items():
+        for n, rd in enumerate(rs):
+            if rd["desc"][0] not in ("R", "W"):
+                continue
+            b = rd["begin"]
+            e = rd.get("end", len(sched))
+            for j in range(b, e):  # the caller's cancellation ends the exchange
+                if sched[j] == f"x:{i}" or (i in r["auto"] and sched[j] == f"r:{i}:rel"):
+                    e = j  # (calls made inside wait_for_ecu() are not delimited by the harness: they end with their release)
+                    break
+            fw = next((j for j in range(b, e) if sched[j] == f"r:{i}:w"), None)
+            if fw is None:
+                continue
+            for j in range(fw + 1, e):
+                p = sched[j].split(":")
+                if p[0] == "r" and p[2] == "w" and int(p[1]) != i:
+                    ctx.disagree("conc:exchange-interleaved",
+                                 f"task {p[1]} transmitted while the exchange of task {i} (call {n}, {rd['desc'][:2]}) was still open "
+                                 f"(first transmission at step {fw}, end at step {e}): " + " ".join(sched[max(fw - 2, 0): j + 1])[-900:],
+                                 {**case, "sched": " ".join(sched)[:3000]}, impl=" ".join(sched[fw: j + 1])[-900:], spec_violated=True,
+                                 site="UDSClient._request / request_unsafe: the client is not held for the whole exchange")
+                    return
+
+
+def judge_multi(ctx, case, r, mo, tids):
+    sched = r["sched"]
+    task_out = {}
+    for i, o in zip(tids, mo[1:-1]):
+        if not o.startswith("ok"):
+            ctx.disagree("multi:bad-task-line", f"driver refused the program of task {i}: {o}", case, model=o, spec_violated=False)
+            return
+        task_out[i] = o[3:].split(";")
+    o = mo[-1]
+    head = o.split()[0]
+    if head in ("label", "disabled"):
+        idx = int(o.split()[1])
+        ch = sched[idx] if idx < len(sched) else "?"
+        parts = ch.split(":")
+        tid = int(parts[1]) if len(parts) > 1 and parts[1].isdigit() else 0
+        mis = [m for m in r["misuse"] if m[0] <= idx]
+        ctxt = " ".join(sched[max(0, idx - 8): idx + 1])
+        if mis:
+            _k, mt, lab, holder = mis[0]
+            what = {"w": "write", "r": "read", "c": "reconnect"}[lab[0]]
+            ctx.disagree(f"conc:rejected:{what}-outside-own-lock",
+                         f"task {mt} completed a {what} while the client lock was held by {holder}: " + ctxt, {**case, "sched": " ".join(sched)[:3000]},
+                         impl=ctxt, model=o, spec_violated=True,
+                         site="UDSClient / ECU: transport used without holding the client lock, or lock not handed over")
+        elif head == "label":
+            want = o.split("model=")[1]
+            obs = parts[2] if len(parts) > 2 else "?"
+            ctx.disagree(f"multi:step:{obs.rstrip('0123456789')}-where-model-{want.rstrip('0123456789')}",
+                         f"step {idx}: task {tid} completed `{obs}` where its program (requestX over the results it observed) continues with `{want}`: " + ctxt,
+                         {**case, "sched": " ".join(sched)[:3000]}, impl=ctxt, model=o, spec_violated=False,
+                         site="UDSClient.request_unsafe / ECU._tester_present_worker vs Model/ClientMulti.lean")
+        else:
+            kind = "cancel" if ch.startswith("x:") else (parts[2] if len(parts) > 2 else ch)
+            ctx.disagree(f"multi:disabled:{kind.rstrip('0123456789')}",
+                         f"step {idx} (`{ch}`) is not enabled in the model (lock not free / inbox head is not what the task read / task not there): " + ctxt,
+                         {**case, "sched": " ".join(sched)[:3000]}, impl=ctxt, model=o, spec_violated=False,
+                         site="asyncio.Lock hand-over / shared inbox vs Model/ClientMulti.lean")
+        return
+    if head != "ok":
+        ctx.disagree("multi:bad-sched-line", f"driver: {o}", case, model=o, spec_violated=False)
+        return
+    lock, _, tstates = o[3:].partition(" | ")
+    if "holder=none" not in lock or "waiters= " not in lock + " ":
+        ctx.disagree("conc:lock-still-held-at-end", "after all tasks ended the client lock is still held or waited for (multi-task model): " + lock, case,
+                     impl=" ".join(sched)[-600:], model=o, spec_violated=True, site="UDSClient._request / reconnect")
+    st = {}
+    for tok in tstates.split():
+        i, _, rest = tok.partition("=")
+        ph, ab, rnd, rds = rest.split(":")
+        st[int(i)] = (ph, ab, int(rnd), rds)
+    for i in tids:
+        ph = st.get(i, ("?",))[0]
+        if ph != "done":
+            ctx.disagree("multi:task-not-done", f"task {i} ended in reality but is `{ph}` in the model after the whole schedule", {**case, "sched": " ".join(sched)[:3000]},
+                         impl=" ".join(sched)[-600:], model=o, spec_violated=False)
+            return
+    # outcome per completed request round
+    for i, rs in r["results"].items():
+        for n, res in rs:
+            rd = r["rounds"][i][n] if n < len(r["rounds"][i]) else None
+            if rd is None or rd["desc"][0] != "R" or res[0] == "cancelled":
+                continue
+            m = task_out[i][n] if n < len(task_out.get(i, [])) else "?"
+            if m.startswith("reply:"):
+                k = int(m.split(":")[1])
+                exp = ("reply", rd["reads"][k]) if k < len(rd["reads"]) else ("reply", "?")
+            elif m.startswith("illegal:"):
+                exp = ("illegal",)
+            elif m.startswith("rcfail:"):
+                exp = ("raw:" + m.split(":")[2],)
+            else:
+                exp = (m,)
+            if tuple(res) != exp:
+                got_foreign = res[0] == "reply" and m.startswith("illegal")
+                ctx.disagree(f"multi:outcome:{res[0]}-where-model-{exp[0]}",
+                             f"caller {i} call {n} (request {rd['desc'][1]}) ended with {res} where the model of request() over the same reads "
+                             f"{rd['reads']} / writes {rd['writes']} / reconnects {rd['rcs']} ends with {m}", {**case, "sched": " ".join(sched)[:3000]},
+                             impl=res, model=m, spec_violated=got_foreign, site="UDSClient.request_unsafe")
+    # reconnect() callers
+    for i, rs in r["results"].items():
+        for n, res in rs:
+            rd = r["rounds"][i][n] if n < len(r["rounds"][i]) else None
+            if rd is not None and rd["desc"][0] == "C" and res[0] != "cancelled":
+                exp = "ok" if rd["desc"][1] == "o" else "raw:" + rd["desc"][1]
+                if res[0] != exp:
+                    ctx.disagree("multi:reconnect-outcome", f"reconnect() of task {i} ended with {res}, transport said {rd['desc'][1]}", case, impl=res, model=exp,
+                                 spec_violated=False)
+
+
+def search(ctx):
+    ctx.widened = True
+    run(ctx)
 
 
 MANIFEST = {
-    "level_text": ("Lean 4 theorems over a lock-discipline acceptor for event traces of any number of tasks: every transport operation is by the "
-                   "lock holder (ops_by_holder), no foreign operation between obtaining and releasing the client (exclusive), FIFO grant, a "
-                   "release always hands over to the longest waiter and every reachable state can progress (progress, release_hands_over), a "
-                   "cancelled waiter cannot obtain the client, an ended task holds nothing - for every schedule. Tied to the code by trace "
-                   "validation: the real ECU client with an instrumented asyncio.Lock and wire runs 2..5 real tasks (service calls, tester-present "
-                   "worker, reconnect) under virtual time with every pair of reply scripts and cancellation at every traced event; each trace must "
-                   "be accepted by the model, each caller gets its own reply or an error, nobody stays blocked."),
-    "level_note": ("Partial: the theorems hold for every schedule, the tie only observes the schedules the harness provokes. Trusted: Lean kernel, "
-                   "asyncio.Lock semantics (re-checked by the acceptor), the harness instrumentation (lock subclass, wire)."),
-    "technique": "Lean 4 proof (invariants over an event acceptor, all schedules) + trace validation of the real client under enumerated schedules and cancellation points",
+    "level_text": ("Lean 4 theorems over a multi-task operational semantics (Model/ClientMulti.lean): each task runs the C04 model of request() "
+                   "(`requestX`: acquire, every write / read / backoff sleep / reconnect incl. responsePending polls and retries, release) over its "
+                   "own script, reconnect(), the tester-present worker loop, or any sequence of such calls with start / stop of the worker "
+                   "(scanner main task, wait_for_ecu); a scheduler interleaves tasks at await points, delivers messages into ONE shared inbox (a "
+                   "late reply goes to whoever reads next and is classified by C03's parsePdu against the reader's own request) and delivers "
+                   "cancellation at any await; asyncio.Lock.release() is modelled without owner check. For every schedule and script: "
+                   "wire_is_serial + events_are_the_wire, wire_op_by_holder, worker_only_via_lock, release_only_by_holder, own_reply_or_error (a reply "
+                   "foreign to the caller's request is never its result; it ends the request with IllegalResponse), progress_multi / "
+                   "handover_on_cancel, fifo_fairness, cancel_safe, stop_terminates, callers_are_bracketed, and the 12 theorems of the lock-discipline "
+                   "acceptor, which the operational model refines (events_accepted); unbracketed_release_breaks_exclusion shows the bracketing is "
+                   "necessary. Every `async with <mutex>` / acquire / release / mutex creation site and every call into the unlocked client / "
+                   "transport methods of client.py, ecu.py, transports/base.py is regenerated from the AST (lock_sites_agree, "
+                   "unlocked_calls_guarded). Tied to the code by schedule replay: the real ECU client with an instrumented lock, wire (one inbox), "
+                   "asyncio.sleep and create_task runs 2..5 real tasks (typed and send_raw callers, worker with start / stop, reconnect(), "
+                   "wait_for_ecu()) under virtual time; every completed await point must be the next step of that task's program in the model "
+                   "(requestX over the results the task observed), every message read must be the head of the model's inbox, the outcome per "
+                   "caller must be the model's; independently of the model each caller must get a reply genuine to its request BYTES or an error, "
+                   "no task may transmit while another task's exchange is open on the wire, and nobody may stay blocked."),
+    "level_note": ("Partial: the theorems hold for every schedule, the tie only observes the schedules the harness provokes; cancellation is atomic "
+                   "in the model. Trusted: Lean kernel, asyncio.Lock / Task.cancel semantics (re-checked by the replay), the harness "
+                   "instrumentation (lock subclass, scripted wire with one inbox, patched asyncio.sleep / create_task / stop_cyclic_tester_present)."),
+    "technique": ("Lean 4 proof (invariants over a multi-task step function composed from the C04 client model, the C03 matcher and an owner-less "
+                  "lock; refinement to the lock-discipline acceptor; AST-regenerated lock-site and call tables) + schedule replay of the real "
+                  "client under enumerated scripts, arrival orders and cancellation at every instrumented await"),
     "design_ref": "DESIGN.md section 7, C05",
 }
